@@ -200,5 +200,53 @@ theorem runPhasesGen_eq (s : Sess) (t : TaskSpec) : runPhasesGen F P g cfg s t =
     by_cases hm : ∃ x, x ∈ t.prods ∧ lookup (runBody F t s.w.fs).fst x = none <;> simp [hm]
   all_goals simp
 
+/-! ### pytask_execute_task_protocol -/
+
+/-- `Persisted` is raised only when every neighbour has a state (persist.py checks `all(all_states)`). -/
+theorem setupChain_persisted_exist (s : Sess) (t : TaskSpec)
+    (h : setupChain P g cfg s t Generated.setupOrder = .persisted) :
+    ((neighbours g t.id).map (stateOf P s.w)).all (·.isSome) = true := by
+  cases hall : ((neighbours g t.id).map (stateOf P s.w)).all (·.isSome) with
+  | true => rfl
+  | false =>
+    exfalso
+    simp only [Generated.setupOrder, setupChain, setupImpl] at h
+    simp [hall] at h
+    repeat' split at h
+    all_goals simp_all
+
+theorem runPhases_persisted (s : Sess) (t : TaskSpec) (h : (runPhases F P g cfg s t).1 = .persisted) :
+    setupChain P g cfg s t Generated.setupOrder = .persisted ∧ (runPhases F P g cfg s t).2 = s := by
+  unfold runPhases at h ⊢
+  cases hsc : setupChain P g cfg s t Generated.setupOrder <;> simp only [hsc] at h ⊢ <;> try (exact ⟨rfl, rfl⟩)
+  all_goals (try (simp at h))
+  repeat' split at h
+  all_goals simp_all
+
+/-- The report hooks never meet a failing `update_states_in_database` for a persisted task. -/
+theorem persisted_records (s : Sess) (t : TaskSpec) (h : (runPhases F P g cfg s t).1 = .persisted) :
+    (recordStates P g cfg (runPhases F P g cfg s t).2.w t.id).2 = true := by
+  obtain ⟨h1, h2⟩ := runPhases_persisted s t h
+  rw [h2]
+  unfold recordStates
+  split
+  · rfl
+  · apply updateStates_ok
+    have := setupChain_persisted_exist s t h1
+    simpa [List.all_eq_true] using this
+
+theorem protocolGen_eq (s : Sess) (t : TaskSpec) (hc : s.crashed = false) :
+    protocolGen F P g cfg s t = protocol F P g cfg s t := by
+  unfold protocolGen protocol
+  simp only [runPhasesGen_eq]
+  have hp : (runPhases F P g cfg s t).1 = .persisted →
+      (recordStates P g cfg (runPhases F P g cfg s t).2.w t.id).2 = true ∧ (runPhases F P g cfg s t).2.crashed = false := by
+    intro h
+    refine ⟨persisted_records s t h, ?_⟩
+    rw [(runPhases_persisted s t h).2]; exact hc
+  have key := processReportGen_eq (P := P) (g := g) (cfg := cfg) (runPhases F P g cfg s t).2 t (runPhases F P g cfg s t).1 hp
+  cases hr : (runPhases F P g cfg s t).1 <;> rw [hr] at key <;>
+    simp [raisedToExc, protocolHandlers, catches, excIsException, key]
+
 end EngineGen
 end Pytask
